@@ -322,6 +322,12 @@ def main(argv=None):
         # property's domain: the library answered a valid call with an error - a violation, not a failure of the machinery
         tb = traceback.extract_tb(exc.__traceback__)
         src = str(_build.REPO / "src")
+        # (frames of third-party code the library called - numpy, pandas, scipy - are skipped: what counts is whether the deepest
+        #  frame of our own or of the library's code is the library's)
+        vroot = os.path.dirname(os.path.dirname(os.path.abspath(__file__)))
+        own = [f for f in tb if f.filename.startswith(src) or f.filename.startswith(vroot)]
+        if own and own[-1].filename.startswith(src):
+            tb = tb[:tb.index(own[-1]) + 1]
         if tb and tb[-1].filename.startswith(src) and not isinstance(exc, (MemoryError, KeyboardInterrupt)):
             fn = next((f for f in reversed(tb) if not f.filename.startswith(src)), tb[-1])
             ctx.violation("library-exception:%s" % tb[-1].name, "%s raised by %s (%s:%d) for a call made by the check at %s:%d" %
